@@ -61,15 +61,28 @@ Qed.
 Lemma zero_of_empty d : supported_dt d = true -> is_empty (zero_of d) = true.
 Proof. destruct d; cbn; intros H; try reflexivity; discriminate. Qed.
 
+(* templateRecord.minDataRecLength is accumulated in uint16 arithmetic: never above the true
+   minimum record length (Codec.min_record_len) *)
+Lemma minlen_add_le m e : minlen_add m e <= m + N.of_nat (min_field_len e).
+Proof.
+  unfold minlen_add, min_field_len, u16. change var_len with 65535.
+  pose proof (N.mod_le (ie_len e) 65536). pose proof (N.mod_le (m + 1) 65536).
+  pose proof (N.mod_le (m + ie_len e mod 65536) 65536).
+  destruct (N.eqb_spec (ie_len e mod 65536) 65535) as [A|A];
+    destruct (N.eqb_spec (ie_len e) 65535) as [B|B]; lia.
+Qed.
+
 Lemma tpl_specs_zero tpl : forall m,
   forallb (fun e => supported_dt (ie_dt e)) tpl = true ->
-  exists m', tpl_specs_v1 (zero_els tpl) m = Ok (List.concat (map field_spec tpl), m').
+  exists m', tpl_specs_v1 (zero_els tpl) m = Ok (List.concat (map field_spec tpl), m') /\
+             m' <= m + N.of_nat (min_record_len tpl).
 Proof.
   induction tpl as [|e r IH]; intros m H; cbn [zero_els map tpl_specs_v1 List.concat].
-  - eexists. reflexivity.
+  - eexists. split; [reflexivity|]. cbn. lia.
   - cbn [forallb] in H. apply andb_true_iff in H as [H1 H2].
-    rewrite (zero_of_empty _ H1). destruct (IH (minlen_add m e) H2) as [m' E].
-    unfold zero_els in E. rewrite E. cbn [obind]. eexists. reflexivity.
+    rewrite (zero_of_empty _ H1). destruct (IH (minlen_add m e) H2) as [m' [E B]].
+    unfold zero_els in E. rewrite E. cbn [obind]. eexists. split; [reflexivity|].
+    pose proof (minlen_add_le m e). cbn [min_record_len fold_right]. fold (min_record_len r). lia.
 Qed.
 
 Lemma put4_0 a b : put_at (zeros 4) 0 [a; b] = Ok [a; b; x00; x00].
@@ -82,13 +95,13 @@ Definition tpl_buf (tid : N) (tpl : list ie) : list byte :=
 
 Lemma tpl_set_shape tid tpl :
   forallb (fun e => supported_dt (ie_dt e)) tpl = true ->
-  exists m,
+  exists m, m <= N.of_nat (min_record_len tpl) /\
   SetB.run new_set (tpl_ops tid tpl) =
   mkSet (be 2 2 ++ be 2 (4 + blen (tpl_buf tid tpl))) STemplate
         [TRec (u16 tid) (u16 (N.of_nat (length tpl))) (zero_els tpl) (tpl_buf tid tpl) m]
         (4 + blen (tpl_buf tid tpl)).
 Proof.
-  intros S. destruct (tpl_specs_zero tpl 0 S) as [m E]. exists m.
+  intros S. destruct (tpl_specs_zero tpl 0 S) as [m [E Bm]]. exists m. split; [lia|].
   unfold tpl_ops, SetB.run. cbn [fold_left].
   (* PrepareSet *)
   cbn [SetB.step new_set s_hdr s_type s_rrecs s_len create_header fst]. unfold template_set_id, set_header_len.
@@ -210,7 +223,7 @@ Theorem e2e_template obs q t tid tpl tb tm :
      tm_add tm (obs mod 4294967296) (tid mod 65536) tpl).
 Proof.
   intros TO H. destruct (tpl_ok_parts tpl TO) as (Freg & Ftf & Fz & Fs & Hmin & Hn).
-  unfold tpl_msg in H. destruct (tpl_set_shape tid tpl Fs) as [m ES].
+  unfold tpl_msg in H. destruct (tpl_set_shape tid tpl Fs) as [m [_ ES]].
   assert (HI : SetB_lemmas.Inv (SetB.run new_set (tpl_ops tid tpl))) by (apply Inv_run, Inv_new).
   destruct (create_msg_ok_shape _ _ _ _ _ HI H) as (Eb & Bl & Mx).
   rewrite ES in Eb, Bl, Mx. cbn [s_len s_hdr] in Eb, Bl, Mx.
@@ -334,7 +347,7 @@ Lemma tpl_msg_frame obs q t tid tpl tb :
   tpl_ok tpl = true -> tpl_msg obs q t tid tpl = Ok tb -> wf_frame tb.
 Proof.
   intros TO H. destruct (tpl_ok_parts tpl TO) as (_ & _ & _ & Fs & _ & _).
-  unfold tpl_msg in H. destruct (tpl_set_shape tid tpl Fs) as [m ES].
+  unfold tpl_msg in H. destruct (tpl_set_shape tid tpl Fs) as [m [_ ES]].
   assert (HI : SetB_lemmas.Inv (SetB.run new_set (tpl_ops tid tpl))) by (apply Inv_run, Inv_new).
   destruct (create_msg_ok_shape _ _ _ _ _ HI H) as (Eb & Bl & Mx).
   rewrite ES in Eb, Bl, Mx. cbn [s_len s_hdr] in Eb, Bl, Mx.
